@@ -104,7 +104,7 @@ let rec parse_sty (ts : string list) : sty * string list =
         | 'U', [name; cnt; rp] ->
           let (ms, r) = members (int_of_string cnt) [] rest (fun m r1 ->
               let (mt, r2) = parse_sty r1 in ((bytes_of_hex m, mt), r2)) in
-          (TUnion (bytes_of_hex name, ms, (if rp = "d" then URKinded else URKeyed)), r)
+          (TUnion (bytes_of_hex name, ms, (match rp with "d" -> URKinded | "p" -> URStringprefix | _ -> URKeyed)), r)
         | 'E', [name; cnt; rp] ->
           let (ms, r) = members (int_of_string cnt) [] rest (fun m r1 ->
               match split_colon m with
@@ -130,7 +130,7 @@ let rec print_sty b (t : sty) =
         tok (Printf.sprintf ".%s:%s:%s%s" (hex_of_bytes fname) (hex_of_bytes rkey) (b01 o) (b01 nl));
         print_sty b ft) fs
   | TUnion (n, ms, r) ->
-    tok (Printf.sprintf "TU%s:%d:%s" (hex_of_bytes n) (List.length ms) (match r with URKeyed -> "k" | URKinded -> "d"));
+    tok (Printf.sprintf "TU%s:%d:%s" (hex_of_bytes n) (List.length ms) (match r with URKeyed -> "k" | URKinded -> "d" | URStringprefix -> "p"));
     List.iter (fun (d, mt) -> tok ("." ^ hex_of_bytes d); print_sty b mt) ms
   | TEnum (n, ms, r) ->
     tok (Printf.sprintf "TE%s:%d:%s" (hex_of_bytes n) (List.length ms) (match r with ERString -> "s" | ERInt -> "i"));
@@ -361,6 +361,10 @@ let () =
          let fixed = not (starts_with "ok:viewerr" obs) in
          if fixed then q := { !q with q_uint_kind = true };
          emit id obs (if fixed then "ok" else "fail:bind_uint_kind_overflow")
+       | "unionptr" ->
+         let fixed = starts_with "ok:" obs in
+         if fixed then q := { !q with q_union_ptr = true };
+         emit id obs (if fixed then "ok" else "fail:bind_union_ptr_panic")
        | "ptruint" ->
          let fixed = starts_with "ok:" obs in
          if fixed then q := { !q with q_ptr_uint = true };
